@@ -122,7 +122,7 @@ fn describe(n: usize, m: u128) -> String {
 pub fn run_generator(n: usize, to_file: bool) -> Result<String, String> {
     let scratch = cli::Scratch::new();
     let mut args = vec!["-n".to_string(), n.to_string()];
-    let path = if to_file { scratch.stale("queens.txt") } else { scratch.path("queens.txt") };
+    let path = if to_file { scratch.stale(&cli::Scratch::awkward("queens.txt")) } else { scratch.path("queens.txt") };
     if to_file {
         args.insert(0, path.to_string_lossy().into_owned());
     }
